@@ -345,7 +345,7 @@ def checker (model : Bool) : Checker where
             if again ≠ "na" ∧ again ≠ rt then
               (some resync, some s!"scanning the same stored bytes a second time answered {again} after {rt}: Scan damaged its argument, so Scan(Value(x)) no longer restores x")
             else if field obs "alias" == some "1" then
-              (some resync, some "the restored value changed when the caller overwrote the buffer it had passed to Scan")
+              (some resync, some "the restored value changed after the call (when the caller overwrote the buffer it had passed to Scan, or when other columns were scanned): it shares storage with something the column does not own")
             else
             match parseSrc srcty dataO with
             | none => (some resync, some "bad-observation")
